@@ -72,3 +72,24 @@ Definition ctx_program : program :=
      fn_body := (EBlock [SLet (PCon "()" [(PVar "deps"); (PVar "env")]) (EVar "arg0"); STail (EBlock [STail (ERecord "QueryCtx" [("deps", (EVar "deps")); ("env", (EVar "env"))] None)])]) |};
     {| fn_name := "SudoCtx::from"; fn_params := ["arg0"]; fn_consts := [];
      fn_body := (EBlock [SLet (PCon "()" [(PVar "deps"); (PVar "env")]) (EVar "arg0"); STail (EBlock [STail (ERecord "SudoCtx" [("deps", (EVar "deps")); ("env", (EVar "env"))] None)])]) |} ].
+
+(* sylvia/src/multitest.rs: the proxies that send execute / migrate messages to the chain, and downcast_error *)
+Definition mt_program : program :=
+  [ {| fn_name := "Proxy::new"; fn_params := ["contract_addr"; "app"]; fn_consts := [];
+     fn_body := (EBlock [STail (ERecord "Proxy" [("contract_addr", (EVar "contract_addr")); ("app", (EVar "app")); ("_phantom", (ECon "marker::PhantomData" []))] None)]) |};
+    {| fn_name := "App::new"; fn_params := ["app"]; fn_consts := [];
+     fn_body := (EBlock [STail (ERecord "App" [("app", (ECall "into" [(EVar "app")]))] None)]) |};
+    {| fn_name := "App::app_mut"; fn_params := ["self"]; fn_consts := [];
+     fn_body := (EBlock [STail (ECall "into" [(EField (EVar "self") "app")])]) |};
+    {| fn_name := "ExecProxy::new"; fn_params := ["contract_addr"; "msg"; "app"]; fn_consts := [];
+     fn_body := (EBlock [STail (ERecord "ExecProxy" [("funds", (EArr [])); ("contract_addr", (EVar "contract_addr")); ("msg", (EVar "msg")); ("app", (EVar "app")); ("phantom", (ECon "PhantomData" []))] None)]) |};
+    {| fn_name := "ExecProxy::with_funds"; fn_params := ["self"; "funds"]; fn_consts := [];
+     fn_body := (EBlock [STail (ERecord "ExecProxy" [("funds", (EVar "funds"))] (Some (EVar "self")))]) |};
+    {| fn_name := "ExecProxy::call"; fn_params := ["self"; "sender"]; fn_consts := [];
+     fn_body := (EBlock [STail (EMatch (ECall "extern::execute_contract" [(ECall "App::app_mut" [(EField (EVar "self") "app")]); (ECall "into" [(EVar "sender")]); (ECall "into" [(EField (EVar "self") "contract_addr")]); (EField (EVar "self") "msg"); (EField (EVar "self") "funds")]) [(PCon "Ok" [PVar "map_err_v"], ECon "Ok" [EVar "map_err_v"]); (PCon "Err" [PVar "map_err_e"], ECon "Err" [ECall "downcast_error" [EVar "map_err_e"]])])]) |};
+    {| fn_name := "MigrateProxy::new"; fn_params := ["contract_addr"; "msg"; "app"]; fn_consts := [];
+     fn_body := (EBlock [STail (ERecord "MigrateProxy" [("contract_addr", (EVar "contract_addr")); ("msg", (EVar "msg")); ("app", (EVar "app")); ("phantom", (ECon "PhantomData" []))] None)]) |};
+    {| fn_name := "MigrateProxy::call"; fn_params := ["self"; "sender"; "new_code_id"]; fn_consts := [];
+     fn_body := (EBlock [STail (EMatch (ECall "extern::migrate_contract" [(ECall "App::app_mut" [(EField (EVar "self") "app")]); (ECall "into" [(EVar "sender")]); (ECall "into" [(EField (EVar "self") "contract_addr")]); (EField (EVar "self") "msg"); (EVar "new_code_id")]) [(PCon "Ok" [PVar "map_err_v"], ECon "Ok" [EVar "map_err_v"]); (PCon "Err" [PVar "map_err_e"], ECon "Err" [ECall "downcast_error" [EVar "map_err_e"]])])]) |};
+    {| fn_name := "downcast_error"; fn_params := ["err"]; fn_consts := [];
+     fn_body := (EBlock [STail (EIf (ECall "anyhow::is" [(EVar "err"); EConst (VStr "Error")]) (EBlock [STail (ECall "unwrap" [(ECall "anyhow::downcast" [(EVar "err"); EConst (VStr "Error")])])]) (EIf (ECall "anyhow::is" [(EVar "err"); EConst (VStr "StdError")]) (EBlock [STail (ECon "Into::into" [(ECall "unwrap" [(ECall "anyhow::downcast" [(EVar "err"); EConst (VStr "StdError")])])])]) (EBlock [STail (ECon "Into::into" [(ECon "StdError::GenericErr" [(ECall "to_string" [(EVar "err")])])])])))]) |} ].
